@@ -48,7 +48,11 @@ func (s *SecureChannel) VerifySessionSignature(cert, nonce, signature []byte) er
 	if err != nil {
 		return err
 	}
-	remoteKey := remoteX509Cert.PublicKey.(*rsa.PublicKey)
+	remoteKey, ok := remoteX509Cert.PublicKey.(*rsa.PublicKey)
+	if !ok {
+		// only RSA keys are supported by the security policies
+		return ua.StatusBadCertificateInvalid
+	}
 
 	enc, err := uapolicy.Asymmetric(s.cfg.SecurityPolicyURI, s.cfg.LocalKey, remoteKey)
 	if err != nil {
